@@ -58,6 +58,46 @@ class _Ctor:
     return Obj(self.cls, d)
 
 
+def _graph_info_entry_table(ctx, R, ci, names):
+  """_create_tensor_name_to_graph_info_map on models with several subgraphs of
+  DIFFERENT layouts: every tensor name maps to (own id, own subgraph, the
+  producer / consumers within its own subgraph)."""
+  from sa.consteval import Obj  # pylint: disable=g-import-not-at-top
+  it = tables.interp(ctx)
+  mp = ctx.repo.func(f'{TIG}._create_tensor_name_to_graph_info_map')
+  models = [
+      [([([0, 1], [2]), ([2, 3], [4])], [4], 5)],
+      [([([0, 1], [2]), ([2, 3], [4]), ([2], [5])], [2, 5], 6), ([([0], [1])], [1, 0], 2)],
+      [([([0], [3]), ([3, 1], [2])], [2], 4), ([([0, 1], [2]), ([2, 2], [3]), ([3], [1])], [3], 4), ([], [0], 1)],   # same ids, other producers
+  ]
+  for mi, sgspecs in enumerate(models):
+    sgs = []
+    for g, (ops, outs, nt) in enumerate(sgspecs):
+      sgs.append(Obj('x:SubGraphT', {'tensors': [Obj('x:TensorT', {'name': f'g{g}t{k}'.encode(), 'buffer': 0}) for k in range(nt)],
+                                     'operators': [Obj('x:OperatorT', {'inputs': list(i), 'outputs': list(o)}) for i, o in ops],
+                                     'outputs': list(outs), 'inputs': [0]}))
+    selfo = Obj(TIG, {'TensorGraphInfo': _Ctor(ci.fq, names), 'flatbuffer_model': Obj('x:ModelT', {'subgraphs': sgs, 'buffers': []}), '_tensor_name_to_graph_info': {'stale': 1}})
+    res = it.outcomes(mp, [selfo], copy_args=False)
+    label = f'model {mi} ({len(sgspecs)} subgraphs)'
+    info = selfo.fields.get('_tensor_name_to_graph_info')
+    if len(res) != 1 or res[0].kind != 'return' or not isinstance(info, dict):
+      ctx.check(R, False, mp.node, mp, label, f'not decided: {[o.short()[:100] for o in res]}')
+      continue
+    want_names = {f'g{g}t{k}' for g, (ops, outs, nt) in enumerate(sgspecs) for k in range(nt)}
+    ctx.check(R, set(info) == want_names, mp.node, mp, f'{label}: names {sorted(info)}', 'the map must hold exactly the tensors of all subgraphs (and nothing from an earlier model)')
+    for g, (ops, outs, nt) in enumerate(sgspecs):
+      for k in range(nt):
+        o = info.get(f'g{g}t{k}')
+        if not isinstance(o, Obj):
+          continue
+        prod = next((oi for oi, (i, oo) in enumerate(ops) if k in oo), -1)
+        cons = sorted([oi for oi, (i, oo) in enumerate(ops) if k in i] + ([-1] if k in outs else []))
+        f = o.fields
+        ok = f['tensor_id'] == k and f['subgraph_id'] == g and f['producer'] == prod and isinstance(f['consumers'], list) and sorted(f['consumers']) == cons
+        ctx.check(R, ok, mp.node, mp, f'{label}: tensor {k} of subgraph {g} -> id {f["tensor_id"]}, subgraph {f["subgraph_id"]}, producer {f["producer"]}, consumers {f["consumers"]}',
+                  f'expected id {k}, subgraph {g}, producer {prod}, consumers {cons}: graph info of a tensor must be computed within its own subgraph')
+
+
 def _graph_info_table(ctx, R, gi):
   """Decision table of _tensor_info_generator on small subgraphs: every tensor
   gets (own id, given subgraph id, producing op or -1, one consumer entry per
@@ -68,6 +108,9 @@ def _graph_info_table(ctx, R, gi):
   names = [f.name for f in ci.fields]
   if names != ['tensor_id', 'subgraph_id', 'producer', 'consumers']:
     raise index.AnalysisError(f'{TIG}.TensorGraphInfo fields changed: {names}')
+  _graph_info_entry_table(ctx, R, ci, names)
+  if len(gi.pos_params) != 3:
+    return  # the generator takes other arguments than (self, subgraph id, subgraph): only the entry-level table above applies
   graphs = [
       # (ops as (inputs, outputs), subgraph outputs, number of tensors)
       ([([0, 1], [2]), ([2, 3], [4])], [4], 5),
